@@ -171,6 +171,45 @@ pub fn run(tier: Tier, seed: u64) -> i32 {
             f.insert(own[2 * i], one - h.snap.witnesses[own[2 * i]]);
             lab.adversary(&case, &h, "decomposition-bit:flipped", &f);
         }
+        // free-operand adversary: wherever an addition row has an operand whose two
+        // coordinates are witnesses of the component itself (not pinned inputs), the
+        // row's equations are a quadratic system in that operand: compute its second
+        // solution (Vieta) and install it together with the matching helper wire
+        {
+            use crate::refimpl::sat::Q_VAR;
+            let rows: Vec<usize> = h.rows.clone().collect();
+            let mut tried = 0;
+            for &row in &rows {
+                if h.layout.gates[row].sel[Q_VAR] == BlsScalar::zero() || row + 1 >= h.snap.gates.len() || tried >= 3 {
+                    continue;
+                }
+                let g = &h.snap.gates[row];
+                let nx = &h.snap.gates[row + 1];
+                let wv = |i: usize| h.snap.witnesses[i];
+                for (fx, fy, px, py) in [(g.w[0], g.w[1], g.w[2], g.w[3]), (g.w[2], g.w[3], g.w[0], g.w[1])] {
+                    if !(h.own.contains(&fx) && h.own.contains(&fy)) || fx == px || fy == py || fx == fy {
+                        continue;
+                    }
+                    let (x2, y2, x3, y3) = (wv(px), wv(py), wv(nx.w[0]), wv(nx.w[1]));
+                    let first_is_free = fx == g.w[0];
+                    if let Some((nx1, ny1)) = second_solution(x2, y2, x3, y3, wv(fx), first_is_free) {
+                        if (nx1, ny1) == (wv(fx), wv(fy)) {
+                            continue;
+                        }
+                        let mut f = Forge::new();
+                        f.insert(fx, nx1);
+                        f.insert(fy, ny1);
+                        // helper wire x1*y2 of this row (next row, wire d)
+                        let helper = if first_is_free { nx1 * y2 } else { x2 * ny1 };
+                        if h.own.contains(&nx.w[3]) {
+                            f.insert(nx.w[3], helper);
+                        }
+                        tried += 1;
+                        lab.adversary(&case, &h, "free-operand:second-solution", &f);
+                    }
+                }
+            }
+        }
         let budget = if kind >= 5 { tier.pick(12, 40) } else { 10 };
         for (name, forge) in substitutions(&h, &mut rng, 2, budget) {
             lab.adversary(&case, &h, &name, &forge);
@@ -188,4 +227,56 @@ pub fn run(tier: Tier, seed: u64) -> i32 {
     ev.floor("adversarial assignments unsatisfied", ev.bucket_get("adversarial.unsatisfied"), tier.pick(4000, 40000));
     ev.floor("end-to-end", ev.bucket_get("end_to_end"), 10);
     ev.finish()
+}
+
+/// Second solution of one variable-base addition row in its free operand.
+/// Row semantics: (x1,y1) + (x2,y2) = (x3,y3) with helper x1*y2, checked as
+///   x3 (1 + d x1y2 y1x2) = x1y2 + y1x2,   y3 (1 - d x1y2 y1x2) = y1y2 + x1x2.
+/// `free_is_first`: the unknown operand is (x1,y1) (else (x2,y2)); (px,py) is
+/// the pinned one. Returns the other root of the resulting quadratic.
+fn second_solution(px: BlsScalar, py: BlsScalar, x3: BlsScalar, y3: BlsScalar, honest_fx: BlsScalar, free_is_first: bool) -> Option<(BlsScalar, BlsScalar)> {
+    use dusk_jubjub::EDWARDS_D as D;
+    // express the free y through the free x from the x3 equation, then the
+    // y3 equation times the denominator is a quadratic G in the free x
+    let fy_of = |fx: BlsScalar| -> Option<(BlsScalar, BlsScalar)> {
+        // returns (numerator, denominator) of fy
+        if free_is_first {
+            // x3 + x3 d (fx py)(fy px) = fx py + fy px  =>  fy (x3 d fx py px - px) = fx py - x3
+            Some((fx * py - x3, x3 * D * fx * py * px - px))
+        } else {
+            // operands swapped: x1 = px, y1 = py, x2 = fx, y2 = fy
+            // x3 + x3 d (px fy)(py fx) = px fy + py fx => fy (x3 d px py fx - px) = py fx - x3
+            Some((py * fx - x3, x3 * D * px * py * fx - px))
+        }
+    };
+    let g = |fx: BlsScalar| -> Option<BlsScalar> {
+        let (num, den) = fy_of(fx)?;
+        // residual of the y3 equation multiplied by den (fy = num/den)
+        let (x1y2_y1x2_num, y1y2_num, x1x2) = if free_is_first {
+            // x1y2 * y1x2 = (fx py)(fy px); y1 y2 = fy py; x1 x2 = fx px
+            (fx * py * px * num, num * py, fx * px)
+        } else {
+            // x1y2 * y1x2 = (px fy)(py fx); y1 y2 = py fy; x1 x2 = px fx
+            (px * py * fx * num, py * num, px * fx)
+        };
+        Some(y3 * den - y3 * D * x1y2_y1x2_num - y1y2_num - x1x2 * den)
+    };
+    let (g0, g1, g2) = (g(BlsScalar::zero())?, g(BlsScalar::one())?, g(BlsScalar::from(2u64))?);
+    // G(x) = A x^2 + B x + C through three points
+    let c = g0;
+    let two_inv = BlsScalar::from(2u64).invert()?;
+    let a = (g2 - g1 - g1 + g0) * two_inv;
+    let b = g1 - g0 - a;
+    if a == BlsScalar::zero() {
+        return None;
+    }
+    // other root: r1 + r2 = -B/A
+    let r2 = -b * a.invert()? - honest_fx;
+    let (num, den) = fy_of(r2)?;
+    let fy = num * den.invert()?;
+    if g(r2)? != BlsScalar::zero() {
+        return None;
+    }
+    let _ = c;
+    Some((r2, fy))
 }
